@@ -7,7 +7,8 @@ the configuration), plus the statement's fallbacks for a never-exited parent.
 from __future__ import annotations
 
 from .. import drive, gen, observe, oracle
-from ..observe import Interpreter, SyncInterpreter, config_of, drain
+from ..observe import (Interpreter, MachineLogic, SyncInterpreter, config_of, create_machine, drain,
+                       run_virtual)
 from .common import Result, Watchdog, h, mk_chunks, plan_summary, rng_for
 
 ID = "C11"
@@ -44,13 +45,14 @@ def _marker_of(transition):
     return None
 
 
-def _profile():
+def _profile(idx=0):
+    # every third machine has siblings whose names extend one another ("s3" / "s3x")
     return gen.profile("history", p_history=0.6, p_hist_target=0.45, p_hist_default=0.35,
-                       p_parallel=0.35, p_target_root=0.0)
+                       p_parallel=0.35, p_target_root=0.0, p_prefix_key=0.5 if idx % 3 == 1 else 0.0)
 
 
 def run_case(res: Result, spec, idx):
-    case = gen.gen_case(rng_for(spec["seed"], ID, spec["chunk"], idx, "case"), _profile())
+    case = gen.gen_case(rng_for(spec["seed"], ID, spec["chunk"], idx, "case"), _profile(idx))
     tree = case.tree
     if not any(n.kind == "history" for n in tree.order):
         return
@@ -96,6 +98,26 @@ def run_case(res: Result, spec, idx):
                     res.count("judged.%s.%s" % (kind, how))
                     if how == "restore":
                         res.hashes.add(h([case.plan, sorted(frm), H.id]))
+                    # the rest of what this transition entered: the topmost entered ancestor T of the
+                    # history parent, every part of T the history does not speak about by default entry
+                    T = P
+                    while T.parent is not None and T.parent.id not in frm:
+                        T = T.parent
+                    if T is not P and observed == expected:
+                        if rem is None:
+                            expl = [H.hist_default] if H.hist_default is not None else [P]
+                        elif H.hist == "deep":
+                            expl = [tree.by_id[x] for x in rem] or [P]
+                        else:
+                            expl = [tree.by_id[x] for x in rem if tree.by_id[x].parent is P] or [P]
+                        exp_t = oracle.enter_set(T, expl)
+                        obs_t = {s for s in to if s == T.id or s.startswith(T.id + ".")}
+                        res.count("judged.outside-the-history-parent")
+                        if obs_t != exp_t:
+                            bad("C11:%s:%s:wrong-configuration-outside-the-history-parent" % (kind, how),
+                                "history %s of %s entered through %s: expected %s, observed %s" % (
+                                    H.id, P.id, T.id, sorted(exp_t - obs_t), sorted(obs_t - exp_t)),
+                                {"from": sorted(frm)})
                     if observed != expected:
                         bad("C11:%s:%s:wrong-subconfiguration" % (kind, how),
                             "history %s (%s) of %s: expected %s inside the parent, observed %s" % (
@@ -189,6 +211,60 @@ def run_case(res: Result, spec, idx):
             res.violation(key, what, w, case={"idx": idx, "engine": engine})
 
 
+def failed_history_transition_then_retry(res: Result, engine, hist, shape, fails):
+    """A history transition that is aborted (missing action / unresolvable sibling transition of the
+    same event) must not consume or alter what history remembers: the next, successful history
+    transition restores the sub-configuration that was last active."""
+    if shape == "compound":
+        P = {"initial": "a", "states": {"a": {"on": {"NEXT": "b"}}, "b": {"initial": "b1", "states": {
+            "b1": {"on": {"DEEPER": "b2"}}, "b2": {}}},
+            "hist": {"type": "history", "history": hist}}, "on": {"LEAVE": "#m.o"}}
+        steps = ["NEXT", "DEEPER", "LEAVE"]
+        want = {"m.p", "m.p.b", "m.p.b.b2"} if hist == "deep" else {"m.p", "m.p.b", "m.p.b.b1"}
+    else:
+        P = {"type": "parallel", "states": {
+            "r1": {"initial": "a", "states": {"a": {"on": {"NEXT": "b"}}, "b": {}}},
+            "r2": {"initial": "x", "states": {"x": {"on": {"STEP": "y"}}, "y": {}}},
+            "hist": {"type": "history", "history": hist}}, "on": {"LEAVE": "#m.o"}}
+        steps = ["NEXT", "STEP", "LEAVE"]
+        want = {"m.p", "m.p.r1", "m.p.r2", "m.p.r1.b", "m.p.r2.y"} if hist == "deep" else \
+            {"m.p", "m.p.r1", "m.p.r2", "m.p.r1.a", "m.p.r2.x"}
+    o = {"on": {"BADBACK": {"target": "#m.p.hist", "actions": ["not_implemented_anywhere"]},
+                "BACK": {"target": "#m.p.hist"}}}
+    cfg = {"id": "m", "initial": "p", "states": {"p": P, "o": o}}
+    machine = create_machine(cfg, logic=MachineLogic())
+    seq = steps + ["BADBACK"] * fails + ["BACK"]
+    out = {}
+    if engine == "sync":
+        it = SyncInterpreter(machine).start()
+        for ev in seq:
+            try:
+                it.send(ev)
+            except Exception as x:  # noqa: BLE001
+                out.setdefault("raised", []).append(type(x).__name__)
+        out["cfg"] = config_of(it)
+        it.stop()
+    else:
+        async def body():
+            it = Interpreter(machine)
+            await it.start()
+            for ev in seq:
+                await it.send(ev)
+                await drain(it)
+            out["cfg"] = config_of(it)
+            await it.stop()
+        run_virtual(body)
+    res.evaluations += 1
+    res.count("failed-history-then-retry." + engine)
+    res.hashes.add(h(["failed-hist", engine, hist, shape, fails]))
+    got = {s for s in out["cfg"] if s == "m.p" or s.startswith("m.p.")}
+    if got != want:
+        res.violation("C11:%s-%s:history-lost-after-an-aborted-history-transition" % (hist, shape),
+                      "after %d aborted history transition(s) the retry restored %s, expected %s" % (
+                          fails, sorted(got), sorted(want)),
+                      {"engine": engine, "events": seq, "config": cfg, "raised": out.get("raised")})
+
+
 def run_chunk(spec):
     observe.quiet_logs()
     res = Result()
@@ -201,6 +277,15 @@ def run_chunk(spec):
     for j in range(spec["n"]):
         wd.arm("idx=%d" % (base + j))
         run_case(res, spec, base + j)
+    k = 0
+    for engine in ("sync", "async"):
+        for hist in ("shallow", "deep"):
+            for shape in ("compound", "parallel"):
+                for fails in (1, 2):
+                    if k % 16 == spec["chunk"] % 16:
+                        wd.arm("failed history %s %s %s" % (engine, hist, shape))
+                        failed_history_transition_then_retry(res, engine, hist, shape, fails)
+                    k += 1
     wd.disarm()
     return res.to_json()
 
@@ -210,7 +295,9 @@ def quota(counters, tier):
     need = ["judged.shallow-compound.restore", "judged.deep-compound.restore",
             "judged.shallow-parallel.restore", "judged.deep-parallel.restore",
             "judged.shallow-compound.parent-entry", "judged.deep-parallel.parent-entry",
-            "judged.shallow-compound.default-target", "snapshot-twin.compared"]
+            "judged.shallow-compound.default-target", "snapshot-twin.compared",
+            "judged.outside-the-history-parent", "failed-history-then-retry.sync",
+            "failed-history-then-retry.async"]
     for k in need:
         if counters.get(k, 0) == 0:
             out.append("monitor-never-reached:" + k)
